@@ -79,6 +79,7 @@ type vfTxn struct {
 	mustEnd int      // largest commit sequence number whose Complete() had returned success before this reader started
 	Digests []string // full-database digests taken by readers
 	ut      *UpdateTran
+	refused string // an operation that was refused in a way that must leave the transaction dead
 }
 
 func (t *vfTxn) id() string { return fmt.Sprintf("w%d.t%d", t.Worker, t.Seq) }
@@ -424,6 +425,8 @@ func vfClassify(e any) string {
 	case strings.Contains(msg, "transaction aborted"), strings.Contains(msg, "transaction already ended"),
 		strings.Contains(msg, "too many writes"), strings.Contains(msg, "too many reads"):
 		return vfDead
+	case strings.Contains(msg, "update & delete on same record"):
+		return "staledel"
 	}
 	return "other:" + msg
 }
@@ -678,6 +681,22 @@ func (s *vfSim) runUpdateTxn(r *rand.Rand, worker, seq int) {
 			s.do(t, op, func() { ut.Update(nil, table, rec.Off, vfRec(newr)) })
 			if op.Err == "" && !old.eq(newr) {
 				t.Wrote = true
+				if how != 2 && r.IntN(12) == 0 && !ut.ct.Failed() {
+					// misuse that must be refused cleanly: delete through the record's PRE-update offset. The
+					// operation fails ("update & delete on same record") and the transaction must be dead; if
+					// it stayed alive (do() reports that) its half-applied delete could be committed
+					sop := &vfOp{Kind: "staledelete", Table: table, PK: pk}
+					s.do(t, sop, func() { ut.Delete(nil, table, rec.Off) })
+					s.rep.Count("stale_offset_deletes", 1)
+					if sop.Err == "staledel" { // (a foreign key refusal comes before anything is changed and leaves the transaction alive)
+						t.refused = sop.String() + " => " + sop.Err
+					}
+					if sop.Err == "" {
+						s.violate("C01 C02 C03 C06 C07 C08 C16 C44", "stale-offset-delete-accepted", fmt.Sprintf("%s op %d", t.id(), len(t.Ops)-1),
+							map[string]any{"op": sop.String(), "txn": t.dump()})
+					}
+					break
+				}
 			}
 		default: // delete a row that was just read
 			probe := s.genRow(r, table, "")
@@ -707,6 +726,10 @@ func (s *vfSim) finish(r *rand.Rand, t *vfTxn) {
 	}
 	res := ut.Complete()
 	t.Outcome = res
+	if res == "" && t.refused != "" {
+		// the abort issued by the refused operation precedes the commit in the transaction's message order
+		s.violate("C01 C02 C03 C06 C07 C08 C16 C44", "committed-after-operation-was-refused", t.id(), map[string]any{"refused": t.refused, "txn": t.dump()})
+	}
 	s.rep.Trace("%s start=%d complete -> %q end=%d", t.id(), t.Start, res, ut.ct.end)
 	if res == "" {
 		t.Committed = true
